@@ -40,20 +40,28 @@ def _odd_trailing(s):
     return n % 2 == 1
 
 
+ENT_STYLES = {
+    0: {"&": "&amp;", "<": "&lt;", '"': "&quot;", "'": "&#39;"},
+    1: {"&": "&#38;", "<": "&#60;", '"': "&#34;", "'": "&#39;"},
+    2: {"&": "&#x26;", "<": "&#x3c;", '"': "&#x22;", "'": "&#x27;"},
+    3: {"&": "&#x26;", "<": "&#x3C;", '"': "&#X22;".lower(), "'": "&#x27;"},
+}
+STYLE = {"n": 0}
+
+
 def encode_expr(src, ctx):
-    """Write expression source the way the context requires."""
-    if ctx == "text":
-        return src.replace("&", "&amp;").replace("<", "&lt;")
+    """Write expression source the way the context requires (character
+    entities: named, decimal or hexadecimal - they are all decoded before
+    evaluation)."""
+    e = ENT_STYLES[STYLE["n"]]
+    out = src.replace("&", "\0")
+    if ctx in ("text", "dq", "sq"):
+        out = out.replace("<", e["<"])
     if ctx == "dq":
-        return src.replace("&", "&amp;").replace("<", "&lt;").replace(
-            '"', "&quot;")
+        out = out.replace('"', e['"'])
     if ctx == "sq":
-        return src.replace("&", "&amp;").replace("<", "&lt;").replace(
-            "'", "&#39;")
-    if ctx == "comment":
-        # entities are decoded here as well; '<' may stand as it is
-        return src.replace("&", "&amp;")
-    return src.replace("&", "&amp;")       # cdata
+        out = out.replace("'", e["'"])
+    return out.replace("\0", e["&"])
 
 
 @st.composite
@@ -96,6 +104,7 @@ def cases(draw):
     return {
         "items": draw(items(3, counter)),
         "comment_interpolation": draw(st.sampled_from([True, True, False])),
+        "entity_style": draw(st.integers(0, 3)),
         "bindings": {"a": draw(sc), "b": draw(sc)},
     }
 
@@ -174,6 +183,10 @@ def render_site(s, env, on, comment_on, log, k1=False):
     return "".join("" if v is None else v for v in vals)
 
 
+def set_style(case):
+    STYLE["n"] = case.get("entity_style", 0)
+
+
 def fixups_equal(s):
     """site_source() may have rewritten the literal text ('--', ']]>',
     trailing '$'); such sites are compared only when nothing was rewritten
@@ -191,6 +204,7 @@ def fixups_equal(s):
 
 def build(case, env, k1=False):
     """Return (source, expected output, expected log)."""
+    STYLE["n"] = case.get("entity_style", 0)
     log = []
     comment_on = case["comment_interpolation"]
 
@@ -249,6 +263,10 @@ class Interp(Part):
         return cases()
 
     def usable(self, case):
+        set_style(case)
+        return self._usable(case)
+
+    def _usable(self, case):
         """None-valued whole attributes and rewritten literals are outside
         the constructed expectation; such sites are avoided by re-drawing
         the (rare) case as trivial."""
@@ -351,6 +369,7 @@ class Interp(Part):
 
 
 def build_source_only(case):
+    set_style(case)
     class _Env(dict):
         def __missing__(self, k):
             return ""
